@@ -3,6 +3,7 @@ package c14
 import (
 	"bytes"
 	"fmt"
+	"strings"
 
 	"github.com/pion/dtls/v3/internal/ciphersuite"
 	"github.com/pion/dtls/v3/pkg/protocol/recordlayer"
@@ -22,7 +23,11 @@ import (
 //	        with a fatal alert while it holds the offered session
 //
 // The rogue variants use the library's own record protection as the ATTACKER's tool (never as an oracle).
-var TamperKinds = []string{"flipS", "flipC", "rogueS", "rogueC", "mitmCH", "mitmSH"}
+//
+//	shortS0 / shortS6 / longS13 and the same for C: as rogueS / rogueC, but the Finished keeps a PREFIX of
+//	        the correct verify_data (0 or 6 of its 12 bytes) or the correct value plus one more byte: a
+//	        comparison that is not an exact-length comparison accepts these
+var TamperKinds = []string{"flipS", "flipC", "rogueS", "rogueC", "mitmCH", "mitmSH", "shortS0", "shortC0", "shortS6", "shortC6", "longS13", "longC13"}
 
 // rebuild reassembles a datagram from parsed records, replacing record i by repl.
 func rebuild(recs []world.Rec, i int, repl []byte) []byte {
@@ -43,7 +48,7 @@ func isFinishedRec(r world.Rec) bool {
 
 // reencrypt opens one protected record sent by the given side, lets mutate change the plaintext and
 // seals it again under the same epoch / sequence number.
-func reencrypt(suite uint16, ms, cr, sr []byte, fromClient bool, cidLen int, raw []byte, mutate func(plain []byte)) ([]byte, error) {
+func reencrypt(suite uint16, ms, cr, sr []byte, fromClient bool, cidLen int, raw []byte, mutate func(plain []byte) []byte) ([]byte, error) {
 	recv := ciphersuite.ForID(ciphersuite.ID(suite), nil)
 	send := ciphersuite.ForID(ciphersuite.ID(suite), nil)
 	if recv == nil || send == nil {
@@ -68,7 +73,9 @@ func reencrypt(suite uint16, ms, cr, sr []byte, fromClient bool, cidLen int, raw
 		return nil, err
 	}
 	hdr.ConnectionID = append([]byte(nil), hdr.ConnectionID...)
-	mutate(plain[hdr.Size():])
+	if repl := mutate(plain[hdr.Size():]); repl != nil {
+		plain = append(append([]byte(nil), plain[:hdr.Size()]...), repl...)
+	}
 	return send.Encrypt(&recordlayer.RecordLayer{Header: hdr}, plain)
 }
 
@@ -120,8 +127,8 @@ func MakeTamperer(h *Hist, kind string, failed *string) Tamperer {
 					return rebuild(recs, i, raw)
 				}
 			}
-		case "rogueS", "rogueC":
-			if fromClient != (kind == "rogueC") {
+		case "rogueS", "rogueC", "shortS0", "shortC0", "shortS6", "shortC6", "longS13", "longC13":
+			if fromClient != strings.Contains(kind, "C") {
 				return nil
 			}
 			for i, r := range recs {
@@ -132,13 +139,31 @@ func MakeTamperer(h *Hist, kind string, failed *string) Tamperer {
 					*failed = "adversary saw a Finished before both hellos"
 					return nil
 				}
-				out, err := reencrypt(suite, secret(), cr, sr, fromClient, cidLen, r.Raw, func(p []byte) {
-					// handshake header (12) + verify_data (12): corrupt verify_data only
-					if len(p) >= 24 && p[0] == 20 {
-						p[12+5] ^= 0x01
-					} else {
+				out, err := reencrypt(suite, secret(), cr, sr, fromClient, cidLen, r.Raw, func(p []byte) []byte {
+					// handshake header (12) + verify_data (12)
+					if len(p) < 24 || p[0] != 20 {
 						*failed = fmt.Sprintf("opened record is not a Finished (%d bytes, type %d)", len(p), p[0])
+						return nil
 					}
+					n := -1
+					switch kind[:len(kind)-1] {
+					case "shortS", "shortC":
+						n = int(kind[len(kind)-1] - '0')
+					}
+					switch {
+					case kind == "longS13" || kind == "longC13":
+						n = 13
+					case kind == "rogueS" || kind == "rogueC":
+						p[12+5] ^= 0x01 // corrupt verify_data only
+						return nil
+					}
+					q := append([]byte(nil), p[:12]...)
+					q[1], q[2], q[3] = 0, 0, byte(n)   // length
+					q[9], q[10], q[11] = 0, 0, byte(n) // fragment_length
+					if n <= 12 {
+						return append(q, p[12:12+n]...)
+					}
+					return append(append(q, p[12:24]...), 0x00)
 				})
 				if err != nil {
 					*failed = err.Error()
